@@ -10,6 +10,7 @@ import (
 	"unicode/utf8"
 
 	"github.com/ipfs/go-cid"
+	ic "github.com/libp2p/go-libp2p/core/crypto"
 	mh "github.com/multiformats/go-multihash"
 	"pgregory.net/rapid"
 
@@ -460,8 +461,10 @@ func runC07(tb ev.TB, p c07Prog) ev.Result {
 	}
 	// other bytes for the SAME key (secp256k1 parsers ignore the low bit of the 0x04 prefix) are not "a different key"
 	if strings.HasPrefix(p.Mut, "key-") {
-		if k1, err1 := provider.UnmarshalPublicKey(e.GetKey()); err1 == nil {
-			if k2, err2 := provider.UnmarshalPublicKey(m.GetKey()); err2 == nil && k1.Equals(k2) {
+		// (decided with the curve library's own parser, not through the identity provider under test: a provider that
+		// answers from a cache of parsed keys would declare the substituted bytes "the same key")
+		if k1, err1 := ic.UnmarshalSecp256k1PublicKey(e.GetKey()); err1 == nil {
+			if k2, err2 := ic.UnmarshalSecp256k1PublicKey(m.GetKey()); err2 == nil && k1.Equals(k2) {
 				return skip("same-key-other-encoding")
 			}
 		}
